@@ -47,31 +47,38 @@ pub proof fn lemma_eff_pos_has_snapshot(s: Storage, a: Seq<char>, lp: Seq<char>,
     if has_weight(s, a, lp, e) { e } else { lemma_eff_pos_has_snapshot(s, a, lp, (e - 1) as u64) }
 }
 
-// @lemma sync_preserves_effective_weight_when_not_backdating [C06,C07]
-/// collapsing the history into one snapshot at `until` keeps every effective weight from `until` on,
-/// PROVIDED no snapshot is later than `until` (otherwise a later weight is back-dated: finding F1)
-pub proof fn lemma_sync_preserves_eff(s0: Storage, s1: Storage, a: Seq<char>, lp: Seq<char>, until: u64, l: u64, e: u64)
-    requires
-        has_weight(s0, a, lp, l), forall|k: u64| has_weight(s0, a, lp, k) ==> k <= l, l <= until, e >= until,
-        has_weight(s1, a, lp, until), forall|k: u64| has_weight(s1, a, lp, k) ==> k == until,
-        s1.weights@[(a, lp, until)] == s0.weights@[(a, lp, l)],
-    ensures eff_weight(s1, a, lp, e) == eff_weight(s0, a, lp, e),
+/// if l is the latest snapshot epoch at or before e, the effective weight at e is the snapshot at l
+pub proof fn lemma_eff_is_latest_at_or_before(s: Storage, a: Seq<char>, lp: Seq<char>, l: u64, e: u64)
+    requires has_weight(s, a, lp, l), l <= e, forall|k: u64| has_weight(s, a, lp, k) && k <= e ==> k <= l,
+    ensures eff_weight(s, a, lp, e) == s.weights@[(a, lp, l)]@,
+    decreases e,
 {
-    lemma_eff_single(s1, a, lp, until, e);
-    lemma_eff_after_latest(s0, a, lp, l, e);
+    if e > l { lemma_eff_is_latest_at_or_before(s, a, lp, l, (e - 1) as u64); }
 }
 
 // @lemma sync_never_backdates_a_later_weight [C06,C07]
-/// C06/C07: a claim bounded by `until` must not change the weight in effect at any epoch >= until. The collapsed history that
-/// sync_address_lp_weight_history is PROVED to produce (single snapshot at `until` holding the LATEST weight) violates this
-/// whenever a snapshot later than `until` exists (position opened/expanded, then Claim{until_epoch} in the past): finding F1.
-pub proof fn lemma_sync_never_backdates(s0: Storage, s1: Storage, a: Seq<char>, lp: Seq<char>, until: u64, l: u64, e: u64)
+/// C06/C07: a claim bounded by `until` must not change the weight in effect at any epoch >= until. The hypotheses are exactly
+/// what sync_address_lp_weight_history(.., until, true) is PROVED to establish (nothing before until, the weight in effect
+/// at until saved at until when there was one, later snapshots untouched). Before fix ef37db5 the code collapsed LATER
+/// snapshots into `until` as well and this lemma was refuted (finding F1).
+pub proof fn lemma_sync_never_backdates(s0: Storage, s1: Storage, a: Seq<char>, lp: Seq<char>, until: u64, e: u64)
     requires
-        has_weight(s0, a, lp, l), forall|k: u64| has_weight(s0, a, lp, k) ==> k <= l, e >= until,
-        has_weight(s1, a, lp, until), forall|k: u64| has_weight(s1, a, lp, k) ==> k == until,
-        s1.weights@[(a, lp, until)] == s0.weights@[(a, lp, l)],
+        e >= until,
+        forall|k: u64| k < until ==> !has_weight(s1, a, lp, k),
+        forall|k: u64| k > until ==> (has_weight(s1, a, lp, k) == has_weight(s0, a, lp, k)) && (has_weight(s0, a, lp, k) ==> s1.weights@[(a, lp, k)] == s0.weights@[(a, lp, k)]),
+        has_weight(s1, a, lp, until) == (exists|k: u64| k <= until && has_weight(s0, a, lp, k)),
+        has_weight(s1, a, lp, until) ==> s1.weights@[(a, lp, until)]@ == eff_weight(s0, a, lp, until),
     ensures eff_weight(s1, a, lp, e) == eff_weight(s0, a, lp, e),
+    decreases e,
 {
+    if e == until {
+        if !has_weight(s1, a, lp, until) {
+            lemma_win_weight_no_snapshots(s1, a, lp, 0, until);
+            lemma_win_weight_no_snapshots(s0, a, lp, 0, until);
+        }
+    } else {
+        lemma_sync_never_backdates(s0, s1, a, lp, until, (e - 1) as u64);
+    }
 }
 } // verus!
 verus! {
